@@ -186,7 +186,18 @@ func (g *G) boom() string {
 }
 
 func (g *G) litValue() interface{} {
-	switch g.Intn(7) {
+	switch g.Intn(8) {
+	case 7:
+		// empty containers: an empty array and `null` are different JSON, and a copy that turns one
+		// into the other shows only after a round trip
+		switch g.Intn(3) {
+		case 0:
+			return []interface{}{}
+		case 1:
+			return map[string]interface{}{}
+		default:
+			return map[string]interface{}{"items": []interface{}{}, "k": []interface{}{[]interface{}{}}}
+		}
 	case 0:
 		return map[string]interface{}{"k": g.Scalar()}
 	case 1:
@@ -303,6 +314,7 @@ var msgVocab = []interface{}{
 	[]interface{}{1.0, 2.0},
 	map[string]interface{}{"t": "b"},
 	true,
+	map[string]interface{}{"k": []interface{}{}},
 	[]interface{}{1.0, 2.0, 3.0},
 	map[string]interface{}{"k": "a", "t": "a"},
 	map[string]interface{}{"k": []interface{}{map[string]interface{}{"id": 1.0}, map[string]interface{}{"id": 2.0}}},
@@ -365,6 +377,8 @@ var bsPatterns = []interface{}{
 	map[string]interface{}{"t": []interface{}{1.0}},
 	map[string]interface{}{"note": []interface{}{1.0, "?other"}},
 	map[string]interface{}{"count": []interface{}{1.0}},
+	map[string]interface{}{"flag": []interface{}{}},
+	map[string]interface{}{"?x": []interface{}{}},
 	map[string]interface{}{"?x": []interface{}{map[string]interface{}{"seen": "?s"}}},
 	map[string]interface{}{"keep!": []interface{}{map[string]interface{}{"seen": "?s"}}},
 	map[string]interface{}{"lastBindings": map[string]interface{}{"?x": []interface{}{map[string]interface{}{"seen": "?s"}}}},
